@@ -39,6 +39,10 @@ def worktree(name):
 
 
 def drop(wt):
+    tag = re.sub(r"[^A-Za-z0-9]", "_", os.path.abspath(wt))
+    for f in (os.path.join(VERIF, ".build", "go.%s.mod" % tag), os.path.join(VERIF, ".build", "go.%s.sum" % tag)):
+        if os.path.exists(f):
+            os.remove(f)
     sh(["git", "-C", REPO, "worktree", "remove", "--force", wt])
     shutil.rmtree(wt, ignore_errors=True)
     sh(["git", "-C", REPO, "worktree", "prune"])
@@ -162,7 +166,7 @@ def confirm(src, sid=None):
     return rec
 
 
-def run_checks(ids, tier):
+def run_checks(ids, tier, seed="1"):
     sd = os.path.join(VERIF, "seeded")
     resf = os.path.join(sd, "results.json")
     results = json.load(open(resf)) if os.path.exists(resf) else {}
@@ -185,13 +189,14 @@ def run_checks(ids, tier):
                 t0 = time.time()
                 env = dict(os.environ, VERIF_REPO=wt)
                 try:
-                    rc, out = sh([os.path.join(VERIF, "check"), prop, "--tier", tr_, "--seed", "1"], cwd=VERIF, env=env,
+                    rc, out = sh([os.path.join(VERIF, "check"), prop, "--tier", tr_, "--seed", seed], cwd=VERIF, env=env,
                                  timeout=7200 if tr_ == "thorough" else 1800)
                 except subprocess.TimeoutExpired:
                     rc, out = 124, "timeout"
                 viol = [l for l in out.splitlines() if l.startswith("VIOLATION")]
                 what = [l.strip() for l in out.splitlines() if l.startswith("    ")][:3]
-                r[tr_] = {"rc": rc, "caught": rc == 1 and bool(viol), "violations": len(viol), "first": what[:2],
+                key = tr_ if seed == "1" else "%s@seed%s" % (tr_, seed)
+                r[key] = {"rc": rc, "caught": rc == 1 and bool(viol), "violations": len(viol), "first": what[:2],
                           "seconds": int(time.time() - t0)}
                 print(sid, prop, tr_, "rc=%d" % rc, "violations=%d" % len(viol), (what or [""])[0][:160], flush=True)
             results[sid] = r
@@ -222,8 +227,11 @@ def write_md(results):
             if r.get(t, {}).get("first"):
                 first = r[t]["first"][0]
                 break
+        others = sorted(k for k in r if "@seed" in k)
+        oc = ", ".join("%s: %s" % (k.split("@")[1], "caught" if r[k]["caught"] else "MISSED") for k in others)
         lines.append("| %s | %s | %s | %s | %s | %s |" % (sid, r.get("property"), needs.replace("|", "/").replace("\n", " ")[:160],
-                                                      cell("quick"), cell("thorough"), first.replace("|", "/")[:140]))
+                                                      cell("quick") + (" (" + oc + ")" if oc else ""), cell("thorough"),
+                                                      first.replace("|", "/")[:140]))
     open(os.path.join(sd, "RESULTS.md"), "w").write("\n".join(lines) + "\n")
 
 
@@ -237,8 +245,11 @@ if __name__ == "__main__":
         sys.exit(0 if rec.get("kept") else 1)
     if sys.argv[1] == "run":
         args = sys.argv[2:]
-        tier = "quick"
-        if args and args[0] == "--tier":
-            tier = args[1]
+        tier, seed = "quick", "1"
+        while args and args[0] in ("--tier", "--seed"):
+            if args[0] == "--tier":
+                tier = args[1]
+            else:
+                seed = args[1]
             args = args[2:]
-        run_checks(args, tier)
+        run_checks(args, tier, seed)
